@@ -1,1 +1,139 @@
-fn main() { println!("hi"); }
+mod engine;
+mod props;
+mod sexpr;
+mod sim;
+#[allow(dead_code)]
+mod model;
+#[allow(dead_code)]
+mod gen;
+
+use engine::driver::{run_check, RunOpts};
+use engine::worker::{run_worker, WorkerArgs};
+use engine::{DynProp, Tier};
+use serde_json::{json, Value};
+
+fn arg_val(args: &[String], name: &str) -> Option<String> {
+    args.iter().position(|a| a == name).and_then(|i| args.get(i + 1).cloned())
+}
+
+fn usage() -> ! {
+    eprintln!(
+        "usage: vcheck run <ID> [--tier quick|thorough] [--seed N] [--workers N]\n\
+         \x20      vcheck replay <ID> <file>\n\
+         \x20      vcheck list"
+    );
+    std::process::exit(2)
+}
+
+fn main() {
+    let args: Vec<String> = std::env::args().skip(1).collect();
+    if args.is_empty() {
+        usage();
+    }
+    let cmd = args[0].as_str();
+    if cmd == "list" {
+        for p in props::all() {
+            println!("{}", p.id());
+        }
+        return;
+    }
+    let id = args.get(1).cloned().unwrap_or_else(|| usage());
+    let prop: Box<dyn DynProp> = match props::all().into_iter().find(|p| p.id() == id) {
+        Some(p) => p,
+        None => {
+            eprintln!("unknown property {id}");
+            std::process::exit(2)
+        }
+    };
+    let tier = arg_val(&args, "--tier")
+        .or_else(|| std::env::var("VERIF_TIER").ok())
+        .and_then(|t| Tier::parse(&t))
+        .unwrap_or(Tier::Quick);
+    let seed: u64 = arg_val(&args, "--seed")
+        .or_else(|| std::env::var("VERIF_SEED").ok())
+        .and_then(|s| s.trim().parse::<i128>().ok())
+        .map(|v| v as u64)
+        .unwrap_or(0);
+    match cmd {
+        "run" => {
+            let workers = arg_val(&args, "--workers").and_then(|w| w.parse().ok()).unwrap_or_else(|| {
+                std::thread::available_parallelism().map(|n| n.get() as u64).unwrap_or(8).min(16)
+            });
+            let code = run_check(
+                prop.as_ref(),
+                &RunOpts {
+                    tier,
+                    seed,
+                    workers,
+                    write_evidence: true,
+                },
+            );
+            std::process::exit(code);
+        }
+        "worker" => {
+            let a = WorkerArgs {
+                tier,
+                seed,
+                shard: arg_val(&args, "--shard").and_then(|s| s.parse().ok()).unwrap_or(0),
+                nshards: arg_val(&args, "--nshards").and_then(|s| s.parse().ok()).unwrap_or(1),
+                from: arg_val(&args, "--from").and_then(|s| s.parse().ok()).unwrap_or(0),
+                dir: arg_val(&args, "--dir").map(Into::into).unwrap_or_else(|| usage()),
+            };
+            std::process::exit(run_worker(prop.as_ref(), &a));
+        }
+        "one" => {
+            // run one generated case alone; print verdict JSON
+            engine::worker::set_limits();
+            engine::install_panic_hook(false);
+            let idx: u64 = arg_val(&args, "--idx").and_then(|s| s.parse().ok()).unwrap_or(0);
+            let mut cache = Default::default();
+            let rep = prop.run_index(tier, seed, idx, true, &|_| true, &mut cache);
+            let f = rep.verdict.fail.map(|f| json!({"sig": f.sig, "detail": f.detail}));
+            println!("{}", json!({"fail": f, "nontrivial": rep.verdict.nontrivial, "case": rep.case_json}));
+        }
+        "gen" => {
+            let idx: u64 = arg_val(&args, "--idx").and_then(|s| s.parse().ok()).unwrap_or(0);
+            let mut cache = Default::default();
+            println!("{}", prop.case_json(tier, seed, idx, &mut cache));
+        }
+        "judge" | "replay" => {
+            engine::worker::set_limits();
+            engine::install_panic_hook(cmd == "judge");
+            let file = args.get(2).cloned().unwrap_or_else(|| usage());
+            let txt = std::fs::read_to_string(&file).unwrap_or_else(|e| {
+                eprintln!("cannot read {file}: {e}");
+                std::process::exit(2)
+            });
+            let v: Value = serde_json::from_str(&txt).unwrap_or_else(|e| {
+                eprintln!("bad json {file}: {e}");
+                std::process::exit(2)
+            });
+            let case = if v.get("case").is_some() { v["case"].clone() } else { v.clone() };
+            let Some(verdict) = prop.judge_json(&case) else {
+                eprintln!("case in {file} does not decode for {id}");
+                std::process::exit(2)
+            };
+            let f = verdict.fail.clone().map(|f| json!({"sig": f.sig, "detail": f.detail}));
+            if cmd == "judge" {
+                println!("{}", json!({"fail": f, "nontrivial": verdict.nontrivial}));
+            } else {
+                match verdict.fail {
+                    None => {
+                        println!("replay {id}: case passes");
+                    }
+                    Some(f) => {
+                        println!("replay {id}: FAILS\n  signature: {}\n  detail: {}", f.sig, f.detail);
+                        let known = engine::known::Known::load();
+                        if let Some(fid) = known.matches(&id, &f.sig) {
+                            println!("KNOWN-FINDING: property={id} {fid}");
+                        } else {
+                            println!("VIOLATION property={id} replay={file}");
+                            std::process::exit(1);
+                        }
+                    }
+                }
+            }
+        }
+        _ => usage(),
+    }
+}
